@@ -40,17 +40,35 @@ QueueOK(q, sc, tp) ==
     /\ \A h \in sc : \E i \in DOMAIN q : q[i][1] <= h /\ h < q[i][2] /\ q[i][3] = 1
     /\ \A i \in DOMAIN q : q[i][3] = 1 => \A h \in q[i][1]..(q[i][2] - 1) : h \in sc
 
+\* ---- note commitment trees (C06).  The harness compared, for every checkpoint the wallet retains,
+\* the root the wallet computes with the true root of the chain it fabricated, and every Merkle path
+\* the wallet produced for a mined note with the true root at that checkpoint; the verdicts are
+\* logged.  RootLaw / WitnessLaw: never a different root ("none"/"err": not computable, legitimate).
+\* In a *tainted* history (a rewind went below a frontier an earlier scan inserted) wrong roots are
+\* the known finding of DESIGN C06 and are accepted here (the check reports them as KNOWN-FINDING).
+Pools == << "S", "O", "I" >>
+VerdictOK(v, tn) == v \in {"ok", "none", "err"} \/ (tn /\ v = "wrong")
+TreesOK(tr, sc, tn) ==
+    /\ tr.S.ck = tr.O.ck /\ tr.O.ck = tr.I.ck                                       \* AlignedCheckpoints
+    /\ \A i \in 1..3 : LET t == tr[Pools[i]]
+                        IN  /\ \A j \in DOMAIN t.roots : VerdictOK(t.roots[j][2], tn)   \* RootLaw
+                            /\ \A j \in DOMAIN t.wit : VerdictOK(t.wit[j][3], tn) /\ t.wit[j][4] = "pos-ok"   \* WitnessLaw
+                            /\ \A j \in DOMAIN t.ck : sc # {} /\ t.ck[j] <= Max(sc)     \* no checkpoint above everything scanned
+                            /\ \A j \in DOMAIN t.ret : t.ret[j] \in SeqToSet(t.ck) \/ t.ret[j] > Max(sc \cup {0})
+
 PostAgrees(post) ==
     \/ ~post.chk
-    \/ /\ post.tip = tip'
-       /\ QueueOK(post.queue, scanned', tip')
-       /\ SeqToSet(post.blocks) = scanned' /\ Len(post.blocks) = Cardinality(scanned')
-       /\ { LoggedRow(post.notes[i]) : i \in DOMAIN post.notes } = { RowOf(n) : n \in known' }
-       /\ Len(post.notes) = Cardinality(known')
-       /\ post.balp =>                 \* no summary is reported while scan progress is not computable: no claim then
-             /\ post.bal.S = << LedgerP("S"), LedgerDustP("S") >>
-             /\ post.bal.O = << LedgerP("O"), LedgerDustP("O") >>
-             /\ post.bal.I = << LedgerP("I"), LedgerDustP("I") >>
+    \/ /\ (IOEnv.CHECK_LEDGER = "1") =>
+            /\ post.tip = tip'
+            /\ QueueOK(post.queue, scanned', tip')
+            /\ SeqToSet(post.blocks) = scanned' /\ Len(post.blocks) = Cardinality(scanned')
+            /\ { LoggedRow(post.notes[i]) : i \in DOMAIN post.notes } = { RowOf(n) : n \in known' }
+            /\ Len(post.notes) = Cardinality(known')
+            /\ post.balp =>                 \* no summary is reported while scan progress is not computable: no claim then
+                  /\ post.bal.S = << LedgerP("S"), LedgerDustP("S") >>
+                  /\ post.bal.O = << LedgerP("O"), LedgerDustP("O") >>
+                  /\ post.bal.I = << LedgerP("I"), LedgerDustP("I") >>
+       /\ (IOEnv.CHECK_TREES = "1") => TreesOK(post.trees, scanned', taint')
 
 \* EXPLAIN=1 (debugging aid): a disagreeing projection is printed and the trace continues
 PostOK(post) == \/ PostAgrees(post)
@@ -80,7 +98,9 @@ TScan == /\ IsEvent("scan")
          /\ PostOK(Rec[l].post)
 
 TTrunc == /\ IsEvent("trunc")
-          /\ \/ Rec[l].res = "ok" /\ Truncate(Rec[l].req, Rec[l].to, Rec[l].fork)
+          /\ \/ /\ Rec[l].res = "ok" /\ Truncate(Rec[l].req, Rec[l].to, Rec[l].fork)
+                /\ (IOEnv.CHECK_TREES = "1" /\ Rec[l].post.chk) =>        \* TruncateLaw: nothing survives above the rewind height
+                      \A j \in DOMAIN Rec[l].post.trees.S.ck : Rec[l].post.trees.S.ck[j] <= Rec[l].to
              \/ Rec[l].res = "err" /\ UNCHANGED wvars              \* refusals are legitimate (relational)
           /\ PostOK(Rec[l].post)
 
